@@ -122,6 +122,25 @@ int main() {
       ZonedDateTime::forEpochSeconds(LocalDate::kInvalidEpochSeconds, TimeZone::forUtc()).printTo(h);
       OffsetDateTime::forEpochSeconds(LocalDate::kInvalidEpochSeconds, TimeOffset()).printTo(i);
       printf("ERR2 %s|%s\n", hex(h.buf).c_str(), hex(i.buf).c_str());
+    } else if (!strcmp(cmd, "ZLONG")) {
+      // a zone record with a name of the given length (a copy of a shipped record with another name pointer)
+      int len; long long t; sscanf(rest, "%d %lld", &len, &t);
+      static std::string names[200];
+      if (len < 3 || len >= 200) { printf("ZLONG BAD\n"); continue; }
+      names[len] = "T/" + std::string((size_t) len - 2, 'a');
+      for (int k = 2; k < len; k++) names[len][k] = (char) ('a' + (k % 26));
+      static const extended::ZoneInfo* xi[200]; static const basic::ZoneInfo* bi[200];
+      const extended::ZoneInfo& sx = zonedbx::kZoneAmerica_Los_Angeles; const basic::ZoneInfo& sb = zonedb::kZoneAmerica_Los_Angeles;
+      if (!xi[len]) {
+        xi[len] = new extended::ZoneInfo{names[len].c_str(), sx.zoneId, sx.zoneContext, sx.transitionBufSize, sx.numEras, sx.eras};
+        bi[len] = new basic::ZoneInfo{names[len].c_str(), sb.zoneId, sb.zoneContext, sb.transitionBufSize, sb.numEras, sb.eras};
+      }
+      TimeZone tx = TimeZone::forZoneInfo(xi[len], &xp), tb = TimeZone::forZoneInfo(bi[len], &bp);
+      Print p1, p2, p3, p4;
+      ZonedDateTime::forEpochSeconds((acetime_t) t, tx).printTo(p1);
+      ZonedDateTime::forEpochSeconds((acetime_t) t, tb).printTo(p2);
+      tx.printTo(p3); tb.printShortTo(p4);
+      printf("ZLONG %d %lld|%s|%s|%s|%s\n", len, t, hex(p1.buf).c_str(), hex(p2.buf).c_str(), hex(p3.buf).c_str(), hex(p4.buf).c_str());
     } else if (!strcmp(cmd, "ERR3")) {
       // values that are errors because of ONE invalid part: "<kind> <isError> <printed>" per value
       int y, mo, d, h, mi, sec, off;
